@@ -307,6 +307,29 @@ func joinRace(iter int) {
 		}
 	}()
 	wg.Wait()
+	// concurrent upserts of DIFFERENT keys: once all have returned, every key must lead to its own row
+	var wg2 sync.WaitGroup
+	for w := 0; w < 6; w++ {
+		w := w
+		wg2.Add(1)
+		go func() {
+			defer wg2.Done()
+			for j := 0; j < 6; j++ {
+				d := 10 + w*6 + j
+				s.UpsertTable("meta", map[string]any{"dev": d, "site": "x", "loc": fmt.Sprintf("L-%d", d)})
+			}
+		}()
+	}
+	wg2.Wait()
+	for d := 10; d < 46; d++ {
+		r, err := s.EmitSync(map[string]any{"id": 1000 + d, "dev": d, "site": "x"})
+		if err != nil || r == nil || r["loc"] != fmt.Sprintf("L-%d", d) {
+			mu.Lock()
+			bad = fmt.Sprintf("after concurrent upserts of distinct keys had returned, key %d joins to %v (err %v), want loc L-%d", d, r, err, d)
+			mu.Unlock()
+			break
+		}
+	}
 	time.Sleep(2 * time.Millisecond)
 	s.Stop()
 	mu.Lock()
